@@ -150,6 +150,12 @@ Theorem lookup_instant : forall s c ty d x, Inv s ->
 Proof. exact lookup_instant_p. Qed.
 Print Assumptions lookup_instant.
 
+(* the ordered-path lookup (one pass with best rank + tie flag, as coded) over a single collection is the plain lookup;
+   longer paths are compared with the implementation on every run (no theorem) *)
+Theorem lookup_path_single : forall s c ty d q, lookup_path s [c] ty d q = lookup_span s c ty d q.
+Proof. exact lookup_path_single_p. Qed.
+Print Assumptions lookup_path_single.
+
 (* ---- non-vacuity: a reachable state with a refused certify, a split range and an ambiguous span lookup ---- *)
 Definition ex_state : state := mkState [(0, KCalibration); (2, KRun)] [(0, true); (2, false)] [0; 1; 2] [].
 Definition ex_history : list op :=
